@@ -163,6 +163,8 @@ def stepInstr (s : St) (i : Instr) : Sum St End :=
         | .died c => .inr (.normal { vm := vm, ctx := c })
         | .fault w => .inr (.fault w))
      | .stop _ _ => .inr (.fault "stack"))
+  | 28 => withCtx s.vm (opPutGlyph s.ctx (ps.getD 0 0)) 1                               -- PUT_GLYPH_8BIT_OBS <class>
+  | 29 => withCtx s.vm (opPutSubs s.ctx (arg 0) (ps.getD 1 0) (ps.getD 2 0)) 3            -- PUT_SUBS_8BIT_OBS <slot_ref> <in class> <out class>
   | _ =>
     match scalarOp opc with
     | none => .inr (.fault "opcode not modelled")
